@@ -195,6 +195,21 @@ Definition ops : list op := [
       let r := Create.SetPayload_fn p d in VL [VB (fst r); vn (snd r); one] | _ => vbad end);
   ("pay.create", fun a => match a with [VI pid; VL os] =>
       match opts_of_vals os with Some l => VB (Create.Create pid l) | None => vbad end | _ => vbad end);
+  (* the same option slice, with spare capacity, used for Create(pid, opts[:k]...), Create(pid, opts...) and the prefix
+     again: three independent values here, so the answer is what a Create that leaves its caller's slice alone gives *)
+  ("pay.create2", fun a => match a with [VI pid; VL os; VI k] =>
+      match opts_of_vals os with
+      | Some l => let pre := firstn (Z.to_nat k) l in
+                  VL [VB (Create.Create pid pre); VB (Create.Create pid l); VB (Create.Create pid pre)]
+      | None => vbad end | _ => vbad end);
+  (* p.SetPayload(packet.Payload(p)[lo:hi]): the argument is a view of the packet's own payload; in Gallina it is a copy *)
+  ("pay.setown", fun a => match a with [VB p; VI lo; VI hi] =>
+      match Payload_fn p with
+      | Ok v => match slice v (zN lo) (zN hi) with
+                | Ok d => let r := SetPayload_m p d in VL [VB (fst r); vres vn (snd r); vgetters (fst r)]
+                | _ => vbad end
+      | r => VL [VB p; vres VB r; vgetters p]
+      end | _ => vbad end);
   ("pay.create_test", fun a => match a with [VI pid; VI cc; VI pusi; VI hp] =>
       VB (Create.CreateTestPacket pid (zN cc) (zb pusi) (zb hp)) | _ => vbad end);
   ("pay.create_dc", fun a => match a with [VI pid; VI cc] =>
